@@ -1,6 +1,7 @@
 import FeatModel.Lemmas.C03Merge
 import FeatModel.Lemmas.C03Ops
 import FeatModel.Lemmas.C03Bridge
+import FeatModel.Lemmas.C03Bcsr
 /-!
 # C03 — matrix algebra operations equal their dense definitions (property theorems)
 
@@ -13,7 +14,7 @@ stored values at column `j`), `rowCols r` its pattern, `SortedCols r` = strictly
 A product result `R` is the list of the new rows of `X`.  Sums over the stored entries of a row of `D` (and `A`) are the
 dense sums `Σ_k D_ik …` because entries that are not stored are zero.
 -/
-open FeatModel.LA FeatModel.LA.MatAlg
+open FeatModel.LA FeatModel.LA.MatAlg FeatModel.Vec
 
 /-! ## the sorted-merge loop ("sparse axpy of row B_l onto row X_i") -/
 
@@ -307,6 +308,276 @@ theorem C03.bcsrRowNorm2_spec {α : Type} [CommRing α] (sqrt : α → α) (A : 
   unfold bcsrRowNorm2
   rw [C03.bcsrRowNorm2Sqr_spec]
   simp [List.map_flatMap, List.map_map, Function.comp_def]
+
+/-! ## the products over the shared dense meaning, sums over ALL inner indices -/
+
+/-- `add_mat_mat_product`: `⟦X'⟧ i j = ⟦X⟧ i j + α · Σ_{k < cols D} ⟦D⟧ i k · ⟦B⟧ k j` for every `(i, j)` in the pattern of `X`
+    (`⟦·⟧` = `Csr.entry`, the dense meaning of C01; `rowVal r j` is the dense meaning of the new row `i`) -/
+theorem C03.addMatMat_dense {α : Type} [CommRing α] (allow : Bool) (alpha : α) (X D B : Csr α)
+    (hXw : X.wf = true) (hDw : D.wf = true) (hBw : B.wf = true)
+    (hX : ∀ i, SortedCols (csrRow X i)) (hB : ∀ k, SortedCols (csrRow B k))
+    (R : List (Row α)) (h : csrAddMatMat allow alpha X D B = .ok R) :
+    R.length = X.rows ∧ ∀ i, i < X.rows → ∃ r, R[i]? = some r ∧ rowCols r = rowCols (csrRow X i) ∧
+      ∀ j, j ∈ rowCols (csrRow X i) →
+        rowVal r j = X.entry i j + alpha * ∑ k ∈ Finset.range D.cols, D.entry i k * B.entry k j := by
+  obtain ⟨hl, hr⟩ := C03.addMatMat_spec allow alpha X D B hX hB R h
+  obtain ⟨d1, d2, _⟩ := csrAddMatMat_ok_dims h
+  have wX := (Csr.wf_iff X).mp hXw
+  have wD := (Csr.wf_iff D).mp hDw
+  have wB := (Csr.wf_iff B).mp hBw
+  refine ⟨hl, fun i hi => ?_⟩
+  obtain ⟨r, h1, h2, h3⟩ := hr i hi
+  refine ⟨r, h1, h2, fun j hj => ?_⟩
+  have hiD : i < D.rows := d1 ▸ hi
+  rw [h3 j, rowVal_csrRow_eq_entry wX hi j]
+  congr 1
+  simp only [if_pos hj]
+  rw [← csrRow_weighted_sum wD hiD alpha (fun k => B.entry k j)]
+  congr 1
+  apply List.map_congr_left
+  intro kd hk
+  rw [rowVal_csrRow_eq_entry wB (d2 ▸ mem_csrRow_col_lt wD hiD hk) j]
+
+/-- `add_double_mat_product` (CSR middle factor):
+    `⟦X'⟧ i j = ⟦X⟧ i j + α · Σ_k ⟦D⟧ i k · Σ_l ⟦A⟧ k l · ⟦B⟧ l j` on the pattern of `X` -/
+theorem C03.addDoubleMatMat_dense {α : Type} [CommRing α] (allow : Bool) (alpha : α) (X D A B : Csr α)
+    (hXw : X.wf = true) (hDw : D.wf = true) (hAw : A.wf = true) (hBw : B.wf = true)
+    (hX : ∀ i, SortedCols (csrRow X i)) (hB : ∀ k, SortedCols (csrRow B k))
+    (R : List (Row α)) (h : csrAddDoubleMatMat allow alpha X D A B = .ok R) :
+    R.length = X.rows ∧ ∀ i, i < X.rows → ∃ r, R[i]? = some r ∧ rowCols r = rowCols (csrRow X i) ∧
+      ∀ j, j ∈ rowCols (csrRow X i) →
+        rowVal r j = X.entry i j + alpha * ∑ k ∈ Finset.range D.cols, D.entry i k *
+          ∑ l ∈ Finset.range A.cols, A.entry k l * B.entry l j := by
+  obtain ⟨hl, hr⟩ := C03.addDoubleMatMat_spec allow alpha X D A B hX hB R h
+  obtain ⟨d1, d2, d3, _⟩ := csrAddDoubleMatMat_ok_dims h
+  have wX := (Csr.wf_iff X).mp hXw
+  have wD := (Csr.wf_iff D).mp hDw
+  have wA := (Csr.wf_iff A).mp hAw
+  have wB := (Csr.wf_iff B).mp hBw
+  refine ⟨hl, fun i hi => ?_⟩
+  obtain ⟨r, h1, h2, h3⟩ := hr i hi
+  refine ⟨r, h1, h2, fun j hj => ?_⟩
+  have hiD : i < D.rows := d1 ▸ hi
+  rw [h3 j, rowVal_csrRow_eq_entry wX hi j]
+  congr 1
+  simp only [if_pos hj]
+  rw [sum_flatMap_map, ← csrRow_weighted_sum wD hiD alpha (fun k => ∑ l ∈ Finset.range A.cols, A.entry k l * B.entry l j)]
+  congr 1
+  apply List.map_congr_left
+  intro kd hk
+  have hkA : kd.1 < A.rows := d2 ▸ mem_csrRow_col_lt wD hiD hk
+  rw [List.map_map, ← csrRow_weighted_sum wA hkA (alpha * kd.2) (fun l => B.entry l j)]
+  congr 1
+  apply List.map_congr_left
+  intro la hla
+  simp only [Function.comp]
+  rw [rowVal_csrRow_eq_entry wB (d3 ▸ mem_csrRow_col_lt wA hkA hla) j]
+
+/-- `add_double_mat_product` (diagonal middle factor):
+    `⟦X'⟧ i j = ⟦X⟧ i j + α · Σ_k ⟦D⟧ i k · (a_k · ⟦B⟧ k j)` on the pattern of `X` -/
+theorem C03.addDoubleDiag_dense {α : Type} [CommRing α] (allow : Bool) (alpha : α) (X D : Csr α) (a : Array α) (B : Csr α)
+    (hXw : X.wf = true) (hDw : D.wf = true) (hBw : B.wf = true)
+    (hX : ∀ i, SortedCols (csrRow X i)) (hB : ∀ k, SortedCols (csrRow B k))
+    (R : List (Row α)) (h : csrAddDoubleDiag allow alpha X D a B = .ok R) :
+    R.length = X.rows ∧ ∀ i, i < X.rows → ∃ r, R[i]? = some r ∧ rowCols r = rowCols (csrRow X i) ∧
+      ∀ j, j ∈ rowCols (csrRow X i) →
+        rowVal r j = X.entry i j + alpha * ∑ k ∈ Finset.range D.cols, D.entry i k * (a.getD k 0 * B.entry k j) := by
+  obtain ⟨hl, hr⟩ := C03.addDoubleDiag_spec allow alpha X D a B hX hB R h
+  obtain ⟨d1, d2, d3, _⟩ := csrAddDoubleDiag_ok_dims h
+  have wX := (Csr.wf_iff X).mp hXw
+  have wD := (Csr.wf_iff D).mp hDw
+  have wB := (Csr.wf_iff B).mp hBw
+  refine ⟨hl, fun i hi => ?_⟩
+  obtain ⟨r, h1, h2, h3⟩ := hr i hi
+  refine ⟨r, h1, h2, fun j hj => ?_⟩
+  have hiD : i < D.rows := d1 ▸ hi
+  rw [h3 j, rowVal_csrRow_eq_entry wX hi j]
+  congr 1
+  simp only [if_pos hj]
+  rw [← csrRow_weighted_sum wD hiD alpha (fun k => a.getD k 0 * B.entry k j)]
+  congr 1
+  apply List.map_congr_left
+  intro kd hk
+  rw [rowVal_csrRow_eq_entry wB (d3 ▸ d2 ▸ mem_csrRow_col_lt wD hiD hk) j]
+  ring
+
+/-! ## BCSR: the products with non-commuting blocks, and the row-loop members for every block shape
+
+Blocks are row-major lists of `bh·bw` scalars; `blockMul n a b` is the matrix product `a·b` of two `n×n` blocks,
+`blockAdd` the entry-wise sum, `rowGet r c` the block stored at column `c` of a row (if any).  `SparseMatrixBCSR` has no
+`add_mat_mat_product`; its two products are the double products below. -/
+
+/-- `add_double_mat_product(BCSR D, BCSR A, BCSR B)`: every block `X_ic` of the returned matrix is the old block plus,
+    in the order of the loops (`k` over the stored blocks of row `i` of `D`, `l` over the stored blocks of row `k` of
+    `A`), the block products `((D_ik · A_kl) · α) · B_lc` for which `B_l` stores column `c` — the factors are multiplied
+    in exactly this order (blocks do not commute); entries of `B_l` without partner in `X_i` are dropped -/
+theorem C03.addDoubleMatMat_spec_bcsr {α : Type} [Zero α] [Add α] [Mul α] (allow : Bool) (alpha : α) (X D A B : Bcsr α)
+    (hX : ∀ i, SortedCols (bcsrRow X i)) (hB : ∀ k, SortedCols (bcsrRow B k))
+    (R : List (Row (List α))) (h : bcsrAddDoubleMatMat allow alpha X D A B = .ok R) :
+    R.length = X.rows ∧ ∀ i, i < X.rows → R[i]? = some ((bcsrRow X i).map fun p => (p.1,
+      (bcsrRow D i).foldl (fun acc kd => (bcsrRow A kd.1).foldl (fun acc la =>
+        (rowGet (bcsrRow B la.1) p.1).elim acc
+          (fun vb => blockAdd acc (blockMul X.bh ((blockMul X.bh kd.2 la.2).map (· * alpha)) vb))) acc) p.2)) := by
+  rw [bcsrAddDoubleMatMat_eq] at h
+  split at h
+  · simp at h
+  · split at h
+    · simp at h
+    · obtain ⟨hl, hr⟩ := products_eq_map allow X.rows (bcsrRow X) (tDMMb alpha X.bh D A B) hX
+        (tDMMb_sorted alpha X.bh D A B hB) R h
+      refine ⟨hl, fun i hi => ?_⟩
+      rw [hr i hi]
+      exact congrArg some (List.map_congr_left (fun p _ => applyMany_tDMMb alpha X.bh D A B i p))
+
+/-- `add_double_mat_product(CSR D, BCSR A, CSR B)`: `X_ic += ((α · d_ik) · A_kl) · b_lc` with scalar `d_ik`, `b_lc`,
+    in the order of the loops -/
+theorem C03.addDoubleMatMat_spec_csr_bcsr_csr {α : Type} [Zero α] [Add α] [Mul α] (allow : Bool) (alpha : α) (X : Bcsr α)
+    (D : Csr α) (A : Bcsr α) (B : Csr α)
+    (hX : ∀ i, SortedCols (bcsrRow X i)) (hB : ∀ k, SortedCols (csrRow B k))
+    (R : List (Row (List α))) (h : bcsrAddDoubleCsrBcsrCsr allow alpha X D A B = .ok R) :
+    R.length = X.rows ∧ ∀ i, i < X.rows → R[i]? = some ((bcsrRow X i).map fun p => (p.1,
+      (csrRow D i).foldl (fun acc kd => (bcsrRow A kd.1).foldl (fun acc la =>
+        (rowGet (csrRow B la.1) p.1).elim acc
+          (fun vb => blockAdd acc ((la.2.map ((alpha * kd.2) * ·)).map (· * vb)))) acc) p.2)) := by
+  rw [bcsrAddDoubleCsrBcsrCsr_eq] at h
+  split at h
+  · simp at h
+  · split at h
+    · simp at h
+    · obtain ⟨hl, hr⟩ := products_eq_map allow X.rows (bcsrRow X) (tDMMc alpha D A B) hX
+        (tDMMc_sorted alpha D A B hB) R h
+      refine ⟨hl, fun i hi => ?_⟩
+      rw [hr i hi]
+      exact congrArg some (List.map_congr_left (fun p _ => applyMany_tDMMc alpha D A B i p))
+
+/-- BCSR·BCSR·BCSR, `allow_incomplete = false`: the call aborts, or nothing was dropped (every column of every merged
+    row of `B` exists in the row of `X`) — so the formula above is then the full product -/
+theorem C03.addDoubleMatMat_never_silently_wrong_bcsr {α : Type} [Zero α] [Add α] [Mul α] (alpha : α) (X D A B : Bcsr α) :
+    (∃ e, bcsrAddDoubleMatMat false alpha X D A B = .error e) ∨
+    ∃ R, bcsrAddDoubleMatMat false alpha X D A B = .ok R ∧
+      ∀ i, i < X.rows → ∀ kd ∈ bcsrRow D i, ∀ la ∈ bcsrRow A kd.1, ∀ c ∈ rowCols (bcsrRow B la.1),
+        c ∈ rowCols (bcsrRow X i) := by
+  cases h : bcsrAddDoubleMatMat false alpha X D A B with
+  | error e => exact Or.inl ⟨e, rfl⟩
+  | ok R =>
+    refine Or.inr ⟨R, rfl, ?_⟩
+    rw [bcsrAddDoubleMatMat_eq] at h
+    split at h
+    · simp at h
+    · split at h
+      · simp at h
+      · intro i hi kd hk la hla c hc
+        have ht : ∃ t ∈ tDMMb alpha X.bh D A B i, t.2 = bcsrRow B la.1 := by
+          simp only [tDMMb, List.mem_flatMap, List.mem_map]
+          exact ⟨_, ⟨kd, hk, la, hla, rfl⟩, rfl⟩
+        obtain ⟨t, ht, he⟩ := ht
+        exact products_strict_subset X.rows (bcsrRow X) (tDMMb alpha X.bh D A B) R h i hi t ht c (he ▸ hc)
+
+/-- the same for CSR·BCSR·CSR -/
+theorem C03.addDoubleMatMat_never_silently_wrong_csr_bcsr_csr {α : Type} [Zero α] [Add α] [Mul α] (alpha : α) (X : Bcsr α)
+    (D : Csr α) (A : Bcsr α) (B : Csr α) :
+    (∃ e, bcsrAddDoubleCsrBcsrCsr false alpha X D A B = .error e) ∨
+    ∃ R, bcsrAddDoubleCsrBcsrCsr false alpha X D A B = .ok R ∧
+      ∀ i, i < X.rows → ∀ kd ∈ csrRow D i, ∀ la ∈ bcsrRow A kd.1, ∀ c ∈ rowCols (csrRow B la.1),
+        c ∈ rowCols (bcsrRow X i) := by
+  cases h : bcsrAddDoubleCsrBcsrCsr false alpha X D A B with
+  | error e => exact Or.inl ⟨e, rfl⟩
+  | ok R =>
+    refine Or.inr ⟨R, rfl, ?_⟩
+    rw [bcsrAddDoubleCsrBcsrCsr_eq] at h
+    split at h
+    · simp at h
+    · split at h
+      · simp at h
+      · intro i hi kd hk la hla c hc
+        have ht : ∃ t ∈ tDMMc alpha D A B i, t.2 = csrRow B la.1 := by
+          simp only [tDMMc, List.mem_flatMap, List.mem_map]
+          exact ⟨_, ⟨kd, hk, la, hla, rfl⟩, rfl⟩
+        obtain ⟨t, ht, he⟩ := ht
+        exact products_strict_subset X.rows (bcsrRow X) (tDMMc alpha D A B) R h i hi t ht c (he ▸ hc)
+
+/-- `scale_rows` (BCSR, any block shape): element `(t / bw, t % bw)` of every block is multiplied by `s[row·bh + t / bw]` -/
+theorem C03.scaleRows_bcsr {α : Type} [CommRing α] (T X : Bcsr α) (s : Array α)
+    (hp : X.rowPtr = T.rowPtr) (hc : X.colInd = T.colInd) (hh : X.bh = T.bh) (hw : X.bw = T.bw) :
+    bcsrScaleRC false T X.val s = (List.range T.rows).map fun row => (bcsrRow X row).map fun p =>
+      (p.1, (List.range (T.bh * T.bw)).map fun t => p.2.getD t 0 * s.getD (row * T.bh + t / T.bw) 0) := by
+  simpa using bcsrScaleRC_eq false T X s hp hc hh hw
+
+/-- `scale_cols` (BCSR): element `(t / bw, t % bw)` of the block in block column `c` is multiplied by `s[c·bw + t % bw]` -/
+theorem C03.scaleCols_bcsr {α : Type} [CommRing α] (T X : Bcsr α) (s : Array α)
+    (hp : X.rowPtr = T.rowPtr) (hc : X.colInd = T.colInd) (hh : X.bh = T.bh) (hw : X.bw = T.bw) :
+    bcsrScaleRC true T X.val s = (List.range T.rows).map fun row => (bcsrRow X row).map fun p =>
+      (p.1, (List.range (T.bh * T.bw)).map fun t => p.2.getD t 0 * s.getD (p.1 * T.bw + t % T.bw) 0) := by
+  simpa using bcsrScaleRC_eq true T X s hp hc hh hw
+
+/-- `lump_rows` (BCSR, any block shape): the dense row sum of scalar row `row·bh + i` -/
+theorem C03.lump_bcsr {α : Type} [CommRing α] (A : Bcsr α) :
+    bcsrLump A = (List.range A.rows).flatMap fun row => (List.range A.bh).map fun i =>
+      ((bcsrRow A row).map fun p => ((List.range A.bw).map fun j => p.2.getD (i * A.bw + j) 0).sum).sum :=
+  bcsrLump_eq A
+
+/-- scaled `row_norm2sqr` (BCSR, any block shape): `Σ_j scal_j·a_ij²` with `j = bw·col + jj` -/
+theorem C03.rowNorm2SqrScaled_bcsr {α : Type} [CommRing α] (A : Bcsr α) (sc : Array α) :
+    bcsrRowNorm2Sqr A (some sc) = (List.range A.rows).flatMap fun row => (List.range A.bh).map fun i =>
+      ((bcsrRow A row).map fun p => ((List.range A.bw).map fun j =>
+        sc.getD (A.bw * p.1 + j) 0 * (p.2.getD (i * A.bw + j) 0 * p.2.getD (i * A.bw + j) 0)).sum).sum :=
+  bcsrRowNorm2SqrScaled_eq A sc
+
+/-- `extract_diag` (BCSR): a matrix with different block-row and block-column counts is reported; otherwise scalar row
+    `row·bh + i` gets element `(i, i)` of the diagonal block found by the search of `C03.diagIndex_spec`, 0 without one.
+    For `bh > bw` the position `i·bw + i` leaves the block: there the real code reads out of range (KNOWN_FINDINGS
+    c03-edge:F4) and the model is not compared. -/
+theorem C03.extractDiag_bcsr {α : Type} [Zero α] (A : Bcsr α) :
+    (A.rows ≠ A.cols → bcsrExtractDiag A = .error .dims) ∧
+    (A.rows = A.cols → bcsrExtractDiag A = .ok ((bcsrDiagIndices A).flatMap fun k => (List.range A.bh).map fun i =>
+      if k != A.usedElements then A.val.getD (k * A.bh * A.bw + i * A.bw + i) 0 else 0)) := by
+  constructor <;> intro h <;> simp [bcsrExtractDiag, h]
+
+/-! ## the vector kernels on the value array (shared with C04): axpy, scale, Frobenius norm, extreme elements -/
+
+/-- `axpy` on equal shapes: entry `p` of the value array becomes `this_p + α·x_p` — also when `x` is `*this`
+    (`r == x` branch `r *= 1 + α`).  Only `rows`, `columns` and `used_elements` are compared by the member: a different
+    *pattern* with the same number of entries is documented as the caller's responsibility and is not detected. -/
+theorem C03.matrix_axpy_entrywise {α : Type} [CommRing α] (T X : Csr α) (alpha : α) (ali : Bool)
+    (hs : sameShape X T = true) (hal : ali = true → X = T) :
+    ∃ l, csrAxpy T X alpha ali = .ok l ∧ l.length = T.val.size ∧
+      ∀ p, p < T.val.size → l.getD p 0 = T.val.toList.getD p 0 + alpha * X.val.toList.getD p 0 := by
+  have hn : X.val.size = T.val.size := by
+    simp only [sameShape, Csr.usedElements, Bool.and_eq_true, beq_iff_eq] at hs; exact hs.2
+  refine ⟨axpyK ali alpha T.val.toList X.val.toList, by simp [csrAxpy, hs], ?_, fun p hp => ?_⟩
+  · cases ali <;> simp [axpyK, hn]
+  · exact axpyK_getD ali alpha _ _ (fun h => by rw [hal h]) (by simp [hn]) p (by simpa using hp)
+
+/-- `scale` on equal shapes: entry `p` becomes `x_p·α` (both branches of the kernel) -/
+theorem C03.matrix_scale_entrywise {α : Type} [CommRing α] (T X : Csr α) (alpha : α) (ali : Bool)
+    (hs : sameShape X T = true) (hal : ali = true → X = T) :
+    ∃ l, csrScale T X alpha ali = .ok l ∧
+      ∀ p, p < T.val.size → l.getD p 0 = X.val.toList.getD p 0 * alpha := by
+  have hn : X.val.size = T.val.size := by
+    simp only [sameShape, Csr.usedElements, Bool.and_eq_true, beq_iff_eq] at hs; exact hs.2
+  refine ⟨scaleK ali alpha T.val.toList X.val.toList, by simp [csrScale, hs], fun p hp => ?_⟩
+  exact scaleK_getD ali alpha _ _ (fun h => by rw [hal h]) (by simp [hn]) p (by simpa using hp)
+
+/-- different `rows`, `columns` or `used_elements` are reported by `axpy` and `scale` -/
+theorem C03.matrix_axpy_mismatch_reported {α : Type} [CommRing α] (T X : Csr α) (alpha : α) (ali : Bool)
+    (hs : sameShape X T = false) : csrAxpy T X alpha ali = .error .dims ∧ csrScale T X alpha ali = .error .dims := by
+  simp [csrAxpy, csrScale, hs]
+
+/-- `norm_frobenius`² = the sum of the squares of the stored values -/
+theorem C03.frobenius_sq {α : Type} [CommRing α] (A : Csr α) :
+    csrFrobSq A = (A.val.toList.map fun v => v * v).sum := by
+  simp [csrFrobSq, sumSq, sumL_eq_sum]
+
+/-- `max_element` / `min_element` / `max_abs_element` / `min_abs_element`: the returned value is attained by a stored
+    value and bounds all stored values (`none` = no stored value: the real member has no defined result) -/
+theorem C03.matrix_extreme_elements {α : Type} [Field α] [LinearOrder α] [IsStrictOrderedRing α] (A : Csr α) (m : α) :
+    (maxElemK A.val.toList = some m → (∀ u ∈ A.val.toList, u ≤ m) ∧ ∃ u ∈ A.val.toList, m = u) ∧
+    (minElemK A.val.toList = some m → (∀ u ∈ A.val.toList, m ≤ u) ∧ ∃ u ∈ A.val.toList, m = u) ∧
+    (maxAbsElemK A.val.toList = some m → (∀ u ∈ A.val.toList, |u| ≤ m) ∧ ∃ u ∈ A.val.toList, m = |u|) ∧
+    (minAbsElemK A.val.toList = some m → (∀ u ∈ A.val.toList, m ≤ |u|) ∧ ∃ u ∈ A.val.toList, m = |u|) := by
+  refine ⟨fun h => maxElemK_spec _ m h, fun h => minElemK_spec _ m h, fun h => ?_, fun h => ?_⟩
+  · simpa only [IsExt, absK_eq_abs] using maxAbsElemK_spec _ m h
+  · simpa only [IsExt, absK_eq_abs] using minAbsElemK_spec _ m h
 
 /-! ## the hypotheses are satisfiable by non-trivial values -/
 
